@@ -1,5 +1,6 @@
 mod c04;
 mod c05;
+mod c06;
 mod c12;
 mod c11;
 mod c13;
@@ -33,6 +34,7 @@ fn main() {
         "reflect" => reflect::run(&out),
         "c01" | "c03" | "c10" => storetrace::run(&out, seed, thorough, &cmd),
         "c04" => c04::run(&out, seed, thorough),
+        "c06" => c06::run(&out, seed, thorough),
         "c05" | "c08" => c05::run(&out, seed, thorough, &cmd),
         "c12" => c12::run(&out, seed, thorough),
         "c11" => c11::run(&out, seed, thorough),
